@@ -276,9 +276,10 @@ def lx_mnode(e, parent_nsmap=None):
     if sp is not None: return sp
     pm = parent_nsmap or {}
     nm = e.nsmap
-    decls = [[1, B(u)] for p, u in nm.items() if p is not None and pm.get(p) != u]
-    if nm.get(None) != pm.get(None):
-        decls.append([0, B(nm.get(None) or '')])
+    # own declarations in document order (lxml lists the element's own nsDef first, in order; binding picks the first match)
+    decls = [[1 if p is not None else 0, B(u)] for p, u in nm.items() if pm.get(p) != u]
+    if None in pm and None not in nm:
+        decls.append([0, b''])
     kids = []
     if e.text: kids.append([1, B(e.text)])
     for c in e:
